@@ -168,9 +168,21 @@ class Extractor:
             return
         names = [s.strip() for s in first.value.split(",")]
         if isinstance(ind, ast.Constant) and ind.value is True:
-            for n in names:
-                # the name sits somewhere inside the argnames string: exact span = the name itself
-                self.add_string_usage(first, "indirect", owner, name=n, whole=first.value)
+            sp, form = self.string_content_span(first)
+            off = 0
+            for part in first.value.split(","):
+                n = part.strip()
+                lead = len(part) - len(part.lstrip())
+                span = None
+                if sp is not None and form in ("plain", "prefixed", "triple"):
+                    # the name sits inside the argnames string: exact span = the name itself
+                    lt = self.line(sp["line"])
+                    content_start_char = sp["start"]["char"]
+                    a = self.char_to_byte(sp["line"], content_start_char + off + lead)
+                    b = self.char_to_byte(sp["line"], content_start_char + off + lead + len(n))
+                    span = self.span(sp["line"], a, b)
+                self.usages.append({"name": n, "kind": "indirect", "owner": owner, "line": first.lineno, "span": span, "form": form, "whole_string": first.value})
+                off += len(part) + 1
         elif isinstance(ind, ast.List):
             for e in ind.elts:
                 if isinstance(e, ast.Constant) and isinstance(e.value, str) and e.value in names:
@@ -419,7 +431,15 @@ class Extractor:
         tree = ast.parse(self.src)
         for st in tree.body:
             self.visit_stmt(st, False)
-        return {"ok": True, "error": None, "defs": self.defs, "usages": self.usages, "funcs": self.funcs, "nlines": len(self.lines)}
+        toks = []
+        for ln, ts in sorted(self.name_tokens.items()):
+            lt = self.line(ln)
+            for t in ts:
+                a = cols(lt, self.char_to_byte(ln, t.start[1]))
+                b = cols(lt, self.char_to_byte(ln, t.end[1]))
+                toks.append([ln, a["utf16"], b["utf16"], t.string, a["byte"], b["byte"]])
+        lens = [len(l.encode("utf-16-le")) // 2 for l in self.lines]
+        return {"ok": True, "error": None, "defs": self.defs, "usages": self.usages, "funcs": self.funcs, "nlines": len(self.lines), "name_tokens": toks, "line_lens16": lens}
 
 
 def handle(req):
